@@ -642,6 +642,49 @@ func (x *ctx) runOutput(q query, src source, kind string, jsonMode bool, idsUnl 
 	}
 }
 
+// runCount: COUNT output with CURSOR / LIMIT against Model.Cursor.count_query (the counting
+// iteration).  Only where the server runs that iteration: SCAN / SEARCH without any filter take
+// the COUNT shortcut, which today ignores LIMIT (reported to C12; recorded as an observation).
+func (x *ctx) runCount(q query, src source) {
+	if src.es == "" {
+		return
+	}
+	shortcut := (q.cmd == "scan" || q.cmd == "search") && q.flt.where == nil && q.flt.wherein == nil && q.flt.whereeval == nil && (q.flt.match == "" || q.flt.match == "*")
+	q.out = "COUNT"
+	for t := 0; t < 4; t++ {
+		limit, cursor := "", strconv.Itoa(x.rng.Intn(src.n+2))
+		mlimit := "18446744073709551615" // newScanWriter: COUNT without LIMIT counts without bound
+		if t > 0 {
+			limit = strconv.Itoa(1 + x.rng.Intn(src.n+2))
+			mlimit = limit
+		}
+		if t == 1 {
+			cursor = ""
+		}
+		v := x.c.MustDo(q.argv(cursor, limit, q.flt)...)
+		mc := cursor
+		if mc == "" {
+			mc = "0"
+		}
+		mod := x.drv.Ask("count", mlimit, mc, src.es)
+		x.r.Dist("count-query")
+		if v.Kind != ':' {
+			x.fail("oracle", "cursor-reply-shape", "COUNT reply is not an integer: "+v.String(), q, map[string]interface{}{"limit": limit, "cursor": cursor}, nil, nil)
+			continue
+		}
+		if strconv.FormatInt(v.Int, 10) != mod {
+			if shortcut {
+				x.r.Dist("obs:count-shortcut-ignores-limit")
+				if _, ok := x.r.Extra["count_shortcut_limit"]; !ok {
+					x.r.Extra["count_shortcut_limit"] = fmt.Sprintf("%s -> %d, the counting iteration (Model.Cursor.count_query, and the same query with any accept-all filter) gives %s: the COUNT shortcut ignores LIMIT (property C12; proposed_fixes/C12-count-shortcut-limit.diff)", strings.Join(q.argv(cursor, limit, q.flt), " "), v.Int, mod)
+				}
+				continue
+			}
+			x.fail("correspondence", "cursor-count-model", "COUNT reply differs from Model.Cursor.count_query", q, map[string]interface{}{"limit": limit, "cursor": cursor}, v.Int, mod)
+		}
+	}
+}
+
 func (x *ctx) fail(kind, sig, what string, q query, extra map[string]interface{}, impl, mod interface{}) {
 	cs := map[string]interface{}{"round": x.round, "query": strings.Join(q.argv("<cursor>", "<limit>", q.flt), " ")}
 	switch {
@@ -662,6 +705,7 @@ func (x *ctx) fail(kind, sig, what string, q query, extra map[string]interface{}
 // source describes the model side of a query: how to ask the model for the page at (limit, cursor)
 // and how to translate its reply (positions) back to ids.
 type source struct {
+	es   string // the entries string (a / r per index entry) when the iterator is modelled by the generic page; "" otherwise
 	n    int // number of index entries the iterator can visit
 	ask  func(limit, cursor string) string
 	name []string // position -> id
@@ -700,7 +744,7 @@ func (x *ctx) buildSource(q query) (source, bool) {
 			}
 			es := dash(string(m))
 			x.r.Dist("iter:Scan")
-			return source{n: len(order), name: order, ask: func(limit, cursor string) string {
+			return source{es: es, n: len(order), name: order, ask: func(limit, cursor string) string {
 				return x.drv.Ask("page", limit, cursor, es)
 			}}, true
 		}
@@ -752,7 +796,7 @@ func (x *ctx) buildSource(q query) (source, bool) {
 				}
 			}
 			es := dash(string(m))
-			return source{n: len(order), name: order, ask: func(limit, cursor string) string {
+			return source{es: es, n: len(order), name: order, ask: func(limit, cursor string) string {
 				return x.drv.Ask("page", limit, cursor, es)
 			}}, true
 		}
@@ -782,7 +826,7 @@ func (x *ctx) buildSource(q query) (source, bool) {
 		}
 		es := dash(string(mask))
 		x.r.Dist("iter:geoSearch-" + q.cmd)
-		return source{n: len(pa.ids), name: pa.ids, ask: func(limit, cursor string) string {
+		return source{es: es, n: len(pa.ids), name: pa.ids, ask: func(limit, cursor string) string {
 			return x.drv.Ask("page", limit, cursor, es)
 		}}, true
 	case "nearby":
@@ -933,6 +977,7 @@ func (x *ctx) runQuery(q query, qi int) {
 			r.Sample(10, map[string]interface{}{"query": qs, "limit": L, "pages": npages, "unlimited": unl.ids, "entries": src.n})
 		}
 	}
+	x.runCount(q, src)
 	// other output kinds and the JSON protocol through the same pushObject path
 	kinds := []string{"OBJECTS", "POINTS", "BOUNDS", "HASHES"}
 	x.runOutput(q, src, kinds[(qi+x.round)%4], false, unl.ids)
